@@ -532,6 +532,9 @@ Definition run_line (d : dstate) (line : bytes) : dstate * list bytes :=
               se <-? get_hex "sender" a ;;
               Some (match encode_burn {| bm_version := v; bm_token := t; bm_recipient := re; bm_amount := am; bm_sender := se |} with
                     | Some bz => B "ok" ++ kv_hex "bz" bz | None => B "err" end)
+            else if beqb op (B "padtoken") then
+              s <-? get_hex "s" a ;;
+              Some (match remote_token_padded s with Some bz => B "ok" ++ kv_hex "bz" bz | None => B "err" end)
             else None in
           (d, match out with Some o => [B "C " ++ n ++ sp ++ o] | None => bad n end)
       | _ => (d, bad (B "CODEC"))
